@@ -1,17 +1,15 @@
 import HapVerif.Model.C12
 import HapVerif.Lemmas.C05
 /-!
-Lemmas for C12: the invariant that holds between the events of a history whose faults are all
-"good" (admin-socket faults inside `HAProxyUpdate`, reload faults inside the reload-queue worker),
-and what one `HAProxyUpdate` establishes from it.
+Lemmas for C12: the invariant that holds between the events of every history, whatever the faults
+(`JInv`: the stores are consistent in themselves; while no rewrite is owed the files follow the stores
+and HAProxy follows the files unless a reload is owed or queued), and what one `HAProxyUpdate` with
+any fault makes of it (`upd_outcome`).
 -/
 namespace HapVerif.C12
 open HapVerif.C05
 
 variable {p : Nat}
-
-theorem good_cases {f : Fault} (h : f.good = true) : f = .none ∨ ∃ l, f = .admin l := by
-  cases f <;> simp_all [Fault.good]
 
 /-- what the files must hold for the tcp service -/
 def TcpGood (t : Tcp) : Prop := (t.want ≠ 0 → t.map = t.want ∧ t.crt = t.want) ∧ t.main = t.want
